@@ -140,6 +140,10 @@ def generated_scenarios(n, seed):
         ("call_bash_binary", lambda: [ok(call(0, "bash", {"command": "printf '\\377\\376\\000z'; printf 'e\\303' >&2"})), follow]),
         ("call_bash_empty_output", lambda: [ok(call(0, "bash", {"command": "true"})), follow]),
         ("provider_500", lambda: [{"status": 500, "content_type": "application/json", "chunks": ['{"error":{"message":"boom ü"}}']}]),
+        ("provider_502_long_multibyte", lambda: [{"status": 502, "content_type": "text/plain; charset=utf-8", "chunks": ["x" * rnd.randrange(4) + rnd.choice("é漢😀") * 9000]}]),
+        ("text_long_multibyte", lambda: [ok(text("x" * rnd.randrange(4) + "漢" * 12000) + text("😀" * 3000))]),
+        ("call_long_multibyte_args", lambda: [ok(call(0, "write", {"path": "m.txt", "content": "x" * rnd.randrange(4) + "é" * 40000})), follow]),
+        ("call_bash_long_multibyte_output", lambda: [ok(call(0, "bash", {"command": "python3 -c \"print('x'*%d+'漢'*70000)\"; python3 -c \"import sys; sys.stderr.write('é'*50000)\"" % rnd.randrange(4)})), follow]),
         ("provider_junk", lambda: [{"status": 200, "chunks": ["data: {not json}\n\n" + ": comment\n\n" + text("after junk") + done]}]),
         ("provider_empty_body", lambda: [{"status": 200, "chunks": [done]}]),
     ]
@@ -161,6 +165,7 @@ def generated_scenarios(n, seed):
         {"payload": {"tool": "bash", "args": {"command": "printf '\\377\\376\\303'; printf '\\351' >&2"}}},
         {"payload": {"tool": "bash", "args": {"command": "echo x", "cwd": "no/such"}}},
         {"payload": {"tool": "ls", "args": {"path": "."}}},
+        {"payload": {"tool": "bash", "title": "x" + "漢" * 3000, "args": {"command": "python3 -c \"print('xy'+'é'*90000)\""}}},
     ]
     who = {"actor_id": "user", "origin": "verif"}
     thread_ops = [
@@ -177,6 +182,10 @@ def generated_scenarios(n, seed):
         {"path": "branch", "body": dict(who, title="sw", from_message_id="@last"), "switch": True},
         {"path": "handoff", "body": dict(who, title="handoff", summary_markdown="sum " + UNI), "switch": True},
         {"path": "handoff", "body": dict(who, title="h2", summary_markdown="s")},
+        {"path": "handoff", "body": dict(who, title="x" + "😀" * 400, summary_markdown="xx" + "漢" * 30000)},
+        {"path": "compaction-checkpoint", "body": dict(who, summary_markdown="x" + "é" * 50000, to_message_id="@last")},
+        {"path": "branch", "body": dict(who, title="xxx" + "漢" * 2000, from_message_id="@last")},
+        {"path": "provider-cursor-rotate", "body": dict(who, reason="x" + "é" * 5000)},
     ]
     out = []
     for i in range(n):
@@ -188,7 +197,7 @@ def generated_scenarios(n, seed):
             if kd == "message":
                 nm, mk = rnd.choice(prompts)
                 script += mk()
-                steps.append({"do": "message", "content": rnd.choice(["m", "m " + UNI, "line1\r\nline2", "x" * 5000])})
+                steps.append({"do": "message", "content": rnd.choice(["m", "m " + UNI, "line1\r\nline2", "x" * 5000, "x" * rnd.randrange(4) + "é" * 6000 + "😀" * 2000])})
                 names.append(nm)
             elif kd in ("command", "unlinked"):
                 if kd == "unlinked" and rnd.random() < 0.15:
